@@ -188,3 +188,42 @@ Fixpoint run_ops (tb : table) (ops : list hop) : list hres :=
   | OReg m p id :: rest => let (tb', e) := handle tb m p id in HErr e :: run_ops tb' rest
   | OReq m p :: rest => HOut (route_req tb m p) :: run_ops tb rest
   end.
+
+(* ---- the request context between the router and the handler ---- *)
+(* context.WithValue chains: a lookup returns the innermost value whose key is == to the asked key.
+   Go compares keys as interface values, i.e. dynamic type AND value: pathvar's key is
+   contextKey("pathVars"), a type of its own (params.go:8,25), while handler.Authorize stores every
+   custom jwt claim under its plain string name (authhandler.go:71-79), whatever that name is. *)
+Inductive ckey :=
+| KPathVars                 (* pathvar.contextKey("pathVars") *)
+| KStr (name : list N).     (* a key of type string *)
+Inductive cval :=
+| VParams (ps : params)     (* a map[string]string *)
+| VOther (tag : nat).       (* any other dynamic type (string, float64, map[string]interface{}, ...) *)
+Definition ctx := list (ckey * cval).                       (* innermost WithValue first *)
+
+Definition ckey_eqb (a b : ckey) : bool :=
+  match a, b with
+  | KPathVars, KPathVars => true
+  | KStr x, KStr y => seg_eqb x y
+  | _, _ => false
+  end.
+
+Definition ctx_value (k : ckey) (c : ctx) : option cval := alookup ckey_eqb k c.
+
+(* WithVars, params.go:21-23 *)
+Definition with_vars (ps : params) (c : ctx) : ctx := (KPathVars, VParams ps) :: c.
+
+(* Vars, params.go:11-18: the value must be a map[string]string *)
+Definition vars_of (c : ctx) : option params :=
+  match ctx_value KPathVars c with
+  | Some (VParams ps) => Some ps
+  | _ => None
+  end.
+
+(* Authorize's loop over the token's custom claims (Go map order: any order) *)
+Definition add_claims (claims : list (list N * cval)) (c : ctx) : ctx :=
+  fold_left (fun c kv => (KStr (fst kv), snd kv) :: c) claims c.
+
+(* ServeHTTP, patrouter.go:46-48: the variables are attached only when there are some *)
+Definition serve_ctx (ps : params) (c : ctx) : ctx := match ps with [] => c | _ => with_vars ps c end.
